@@ -114,13 +114,25 @@ func main() {
 		tc.Checks, _ = strconv.Atoi(v)
 	}
 	start := time.Now()
+	// VERIF_RUNTAG isolates a run (work dir, binary, replays, evidence) so that several trees can be
+	// checked side by side (sensitivity runs against scratch copies); the registered commands never set it.
+	tag := os.Getenv("VERIF_RUNTAG")
 	work := filepath.Join(verifDir, ".work", id)
+	replays := filepath.Join(verifDir, "replays")
+	evidencePath := filepath.Join(verifDir, "evidence", id+".json")
+	binTag := id
+	if tag != "" {
+		work = filepath.Join(verifDir, ".work", id+"."+tag)
+		replays = filepath.Join(work, "replays")
+		evidencePath = filepath.Join(work, "evidence.json")
+		binTag = id + "." + tag
+	}
 	os.RemoveAll(work)
 	os.MkdirAll(filepath.Join(work, "stats"), 0o755)
-	os.RemoveAll(filepath.Join(verifDir, "replays", id))
+	os.RemoveAll(filepath.Join(replays, id))
 	os.RemoveAll(filepath.Join(verifDir, "props", "testdata", "rapid"))
 
-	bin := build(id, cfg.Race)
+	bin := build(binTag, cfg.Race)
 
 	type procResult struct {
 		shard   int
@@ -145,7 +157,7 @@ func main() {
 			cmd := exec.Command(bin, args...)
 			cmd.Dir = filepath.Join(verifDir, "props")
 			cmd.Env = append(os.Environ(), "VERIF_SHARD="+strconv.Itoa(sh), "VERIF_TIER="+tier, "VERIF_WORK="+work,
-				"VERIF_DIR="+verifDir, "VERIF_SEED="+strconv.FormatInt(seed, 10), "GOMEMLIMIT=6GiB")
+				"VERIF_DIR="+verifDir, "VERIF_REPLAYS="+replays, "VERIF_SEED="+strconv.FormatInt(seed, 10), "GOMEMLIMIT=6GiB")
 			var buf bytes.Buffer
 			cmd.Stdout, cmd.Stderr = &buf, &buf
 			done := make(chan error, 1)
@@ -298,9 +310,9 @@ func main() {
 	if len(inconclusive) > 0 {
 		ev["inconclusive"] = inconclusive
 	}
-	os.MkdirAll(filepath.Join(verifDir, "evidence"), 0o755)
+	os.MkdirAll(filepath.Dir(evidencePath), 0o755)
 	b, _ := json.MarshalIndent(ev, "", " ")
-	if err := os.WriteFile(filepath.Join(verifDir, "evidence", id+".json"), b, 0o644); err != nil {
+	if err := os.WriteFile(evidencePath, b, 0o644); err != nil {
 		fatal2("write evidence: %v", err)
 	}
 
